@@ -445,6 +445,7 @@ func (s *Sim) finish() {
 		s.violate("C15", "a", "no-quiescence", "the system did not become quiescent within 20000 drain steps (%d parked, %d pending)", s.numParked(), len(s.tr.pending()))
 		return
 	}
+	s.traceEnd = len(s.Trace)
 	s.oracleQuiescence()
 	s.teardown()
 }
@@ -509,6 +510,10 @@ func (s *Sim) drainParkedQuiet() {
 func (s *Sim) result() *RunResult {
 	r := &RunResult{Seed: s.Cfg.Seed, Profile: s.Cfg.Profile, Steps: s.Step, SimTimeS: s.simTime.Seconds(), Hash: s.obsHash,
 		Viols: s.Viols, Stats: s.Stats, Probes: s.Probes, Skipped: s.skipped, Trace: s.Trace}
+	if s.traceEnd > 0 {
+		// the teardown after the quiescence oracles is re-done by every replay
+		r.Trace = s.Trace[:s.traceEnd]
+	}
 	h := uint64(1469598103934665603)
 	for _, d := range s.Trace {
 		for _, b := range []byte(d.String()) {
